@@ -207,6 +207,9 @@ func checkC11(c *Ctx) {
 		{"a": data.String("q&"), "c": data.Map{"x": data.String("'")}, "b": data.Int(-1), "x": data.String("'"), "x_1": data.String("\""), "n": data.Int(7), "l": data.List{}},
 		{"a": data.String("0"), "c": data.Map{"x": data.String("0")}, "b": data.Int(2), "x": data.String("w"), "x_1": data.String("v"), "n": data.Int(0), "l": data.List{data.Int(1), data.Int(2), data.Int(3)}},
 	}
+	for _, d := range datas {
+		d["t"] = data.Map{"a": data.String("TA"), "b": data.String("TB<"), "x": data.String("TX"), "x_1": data.String("TX1"), "n": data.String("TN")}
+	}
 	// process messages in groups of 3: one bundle of 3 files, one extractor run, all catalogues
 	var group []c11msg
 	flush := func() {
@@ -254,9 +257,11 @@ func checkC11(c *Ctx) {
 	}
 }
 
+const c11Twin = "{msg desc=\"twin\"}tw {$t.a}|{$t.b}|{$t.x}|<b>{$t.x_1}</b>|{$t.n}{/msg}"
+
 func c11File(i int, m c11msg) string {
-	doc := "/**\n * @param? a\n * @param? b\n * @param? c\n * @param? x\n * @param? x_1\n * @param? n\n * @param? l\n */\n"
-	use := "{if false}{$a}{$b}{$c}{$x}{$x_1}{$n}{$l}{/if}"
+	doc := "/**\n * @param? a\n * @param? b\n * @param? c\n * @param? x\n * @param? x_1\n * @param? n\n * @param? l\n * @param? t\n */\n"
+	use := "{if false}{$a}{$b}{$c}{$x}{$x_1}{$n}{$l}{$t}{/if}"
 	ns := fmt.Sprintf("g%d", i)
 	var body string
 	switch m.surround {
@@ -272,6 +277,12 @@ func c11File(i int, m c11msg) string {
 		s += doc + "{template .inner}\n" + m.msgSrc() + use + "\n{/template}\n"
 	}
 	s += "/** @param? x */\n{template .sub}\nSUB{$x ?: ''}\n{/template}\n"
+	if m.surround == "plain" {
+		// a second message whose placeholders have the names of the first one's (A, B, X, X_1, START_BOLD, ...)
+		// but other contents, alone and in one template with the first message (before and after it).
+		s += doc + "{template .twin}\n" + c11Twin + use + "\n{/template}\n"
+		s += doc + "{template .both}\n(" + m.msgSrc() + ")#" + c11Twin + "#(" + m.msgSrc() + ")" + use + "\n{/template}\n"
+	}
 	// value templates: what each placeholder renders to on its own
 	for j, p := range allParts(m.parts) {
 		if p.Kind == "plural" {
@@ -376,6 +387,12 @@ func runC11Group(c *Ctx, xg string, group []c11msg, datas []data.Map) {
 			return
 		}
 	}
+	var twinID uint64
+	for _, t := range reg.Templates {
+		if strings.HasSuffix(t.Node.Name, ".twin") {
+			collectMsgsAst(t, func(id uint64) { twinID = id })
+		}
+	}
 	// the official id fingerprints placeholder names without braces, so "{A}{X}{XXX}" and "{A}{XXX}{X}"
 	// are the same message id by definition: a catalogue cannot tell them apart. Such groups are not asserted.
 	phByID := map[uint64]string{}
@@ -438,6 +455,13 @@ func runC11Group(c *Ctx, xg string, group []c11msg, datas []data.Map) {
 				pm.Str = strs
 				forms[i] = strs
 				file.Messages = append(file.Messages, pm)
+			}
+			// the twin message (one entry, shared by all files of the group) is always translated.
+			if twinID != 0 {
+				if pm, ok := byID[fmt.Sprint(twinID)]; ok {
+					pm.Str = []string{ct.tr(pm.Id)}
+					file.Messages = append(file.Messages, pm)
+				}
 			}
 			// two generated messages may be the same message (same id): then a catalogue entry kept
 			// for one of them translates the other as well.
@@ -513,6 +537,20 @@ func runC11Group(c *Ctx, xg string, group []c11msg, datas []data.Map) {
 						fail("the identity translation renders byte-for-byte what rendering without a catalogue does", "identity:"+sig, cs, src, got)
 					case translated && got != want:
 						fail("every translated text segment and every placeholder's live value lands where the translation puts it", "placement:"+sig, cs, want, got)
+					}
+					// the same message in one template with another message that has like-named placeholders
+					if m.surround == "plain" && gerr == "" {
+						tw, terr := render(fmt.Sprintf("g%d.twin", i), d, bundle)
+						both, berr := render(fmt.Sprintf("g%d.both", i), d, bundle)
+						c.Count("renders", 2)
+						if terr == "" && (berr != "" || both != got+"#"+tw+"#"+got) {
+							fail("a message renders from its own placeholders whatever other messages the template contains", "neighbour-message:"+sig, cs, got+"#"+tw+"#"+got, both+berr)
+						}
+						if jsErr == nil && berr == "" {
+							if jb, jerr := jsCallTemplate(vm, fmt.Sprintf("g%d.both", i), toJSON(d), ""); jerr != nil || normEntities(jb) != normEntities(both) {
+								fail("the Go and JavaScript backends agree", "go-vs-js-neighbour:"+sig, cs, "Go: "+both, fmt.Sprint("JS: ", jb, jerr))
+							}
+						}
 					}
 					// Go == JS (ASCII data only: otto)
 					if jsErr != nil {
